@@ -328,7 +328,7 @@ func cmdCheck(args []string) int {
 	exit := 0
 	var knownHit []string
 	for _, ob := range failing {
-		if k := isKnown(ob.Name); k != nil && strings.Contains(ob.Name, "!") {
+		if k := isKnown(ob.Name); k != nil { // a probe obligation (name!TAG) or an obligation recorded by its exact name (one call site)
 			fmt.Printf("KNOWN-FINDING: %s\n", k.Text)
 			knownHit = append(knownHit, ob.Name)
 			continue
